@@ -111,6 +111,16 @@ impl Map {
         sizes
     }
 
+    /// Returns `true` if every population has at least one sample.
+    ///
+    /// This can only fail when a sample was defined more than once with different populations:
+    /// the last definition wins, which may leave an earlier population without samples.
+    pub(crate) fn populations_are_nonempty(&self) -> bool {
+        let population_sizes = self.population_sizes();
+
+        (0..population_sizes.len()).all(|id| population_sizes.contains_key(&population::Id(id)))
+    }
+
     /// Returns an iterator over the samples in the mapping.
     pub fn samples(&self) -> impl Iterator<Item = &Sample> {
         self.0.keys()
